@@ -1,5 +1,5 @@
-\* exhaustive: 3 L1 blocks, 3 events, 1 reorg, 1 failure, chunk size in {1,2,10}
-\* measured: 1 425 375 distinct / 4 745 524 generated states, depth 30 (about 1 min on 4 workers)
+\* exhaustive: 3 L1 blocks, 3 events, 1 reorg, 1 failure, 1 restart, chunk size in {1,2,10}
+\* measured: 3 259 276 distinct / 12 025 282 generated states (44 s on 12 workers)
 CONSTANTS
   MaxBlocks = 3
   MaxEvents = 3
